@@ -84,27 +84,42 @@ def directory_rules(ctx: Ctx) -> None:
             branches[try_ev(ctx, init, t.comparators[0])] = "\n".join(ast.unparse(s) for s in n.body)
     a, b = branches.get(".sm", ""), branches.get(".ssc", "")
     ctx.expect("R-CLONE", init, "duplicate handling is the same for .sm and .ssc", bool(a) and a.replace("sm_path", "X_path") == b.replace("ssc_path", "X_path"), "", "the two branches differ in more than the path attribute", node=lp)
-    # within a branch: duplicate -> (ignore: keep the first) or raise; else record the joined path
+    # per entry: record the first file of a kind; a second one raises unless duplicates are ignored (then the first wins)
+    from ..decide import decisions, judge_table, IGNORE
     for ext, attr in ((".sm", "sm_path"), (".ssc", "ssc_path")):
         stores = [n for st in lp.body for n in walk_no_nested(st) if isinstance(n, ast.Assign) and self_attr(n.targets[0], sn) == attr]
-        okp = len(stores) == 1 and isinstance(stores[0].value, ast.Name)
+        okp = len(stores) == 1
         if okp:
             pv = inline(stores[0].value, init)
             okp = matches("$s._path.join($d, $i)", pv) and ast.unparse(pv.args[0]) == init.param_names()[1] and ast.unparse(pv.args[1]) == item
-            fs = facts(ctx, init, stores[0])
-            okp = okp and (f"{mname} == '{ext}'", True) in [(ast.unparse(x), pol) for x, pol in fs] and (f"{sn}.{attr}", False) in [(ast.unparse(x), pol) for x, pol in fs]
-        ctx.expect("R-PROV", init, f"{attr} is the directory joined with the listed {ext} entry, recorded for the first one only", okp, "", "", node=lp)
-        rs = [n for st in lp.body for n in walk_no_nested(st) if isinstance(n, ast.Raise)]
-        okr = False
-        for r in rs:
-            fs = [(ast.unparse(x), pol) for x, pol in facts(ctx, init, r)]
-            if (f"{mname} == '{ext}'", True) in fs and (f"{sn}.{attr}", True) in fs and (f"{sn}._ignore_duplicate", False) in fs:
-                exc = r.exc.func if isinstance(r.exc, ast.Call) else r.exc
-                okr = ast.unparse(exc) == "DuplicateSimfileError"
-        ctx.expect("R-TABLE", init, f"a second {ext} file raises DuplicateSimfileError unless duplicates are ignored", okr, "", "", node=lp)
-        cs = [n for st in lp.body for n in walk_no_nested(st) if isinstance(n, ast.Continue)]
-        okc = any((f"{sn}.{attr}", True) in [(ast.unparse(x), pol) for x, pol in facts(ctx, init, c)] and (f"{sn}._ignore_duplicate", True) in [(ast.unparse(x), pol) for x, pol in facts(ctx, init, c)] for c in cs)
-        ctx.expect("R-TABLE", init, f"with ignore_duplicate the first listed {ext} file wins", okc, "", "", node=lp)
+        ctx.expect("R-PROV", init, f"{attr} is the directory joined with the listed {ext} entry", okp, "", "", node=lp)
+    M, S, C = mname, f"{mname} == '.sm'", f"{mname} == '.ssc'"
+    P1, P2, I = f"{sn}.sm_path", f"{sn}.ssc_path", f"{sn}._ignore_duplicate"
+
+    def outcome(d):
+        k_, v = d.terminal()
+        if k_ == "raise":
+            e = v.func if isinstance(v, ast.Call) else v
+            return "raise " + ast.unparse(e)
+        for st in d.stmts():
+            if isinstance(st, ast.Assign) and self_attr(st.targets[0], sn) in ("sm_path", "ssc_path") and in_body(lp, st):
+                return "record " + self_attr(st.targets[0], sn)
+        return "skip"
+
+    def spec(a):
+        if not a[M]:
+            return "skip"
+        if a[S] and a[C]:
+            return IGNORE
+        for flag, present, attr in ((a[S], a[P1], "sm_path"), (a[C], a[P2], "ssc_path")):
+            if flag:
+                if not present:
+                    return "record " + attr
+                return "skip" if a[I] else "raise DuplicateSimfileError"
+        return IGNORE
+
+    judge_table(ctx, "R-TABLE", init, "the first .sm / .ssc entry is recorded; a second one raises DuplicateSimfileError unless duplicates are ignored (then the first wins)",
+                decisions(ctx, init, nonempty=lambda fornode, env: fornode is lp, stop=[mname]), [M, S, C, P1, P2, I], spec, outcome, node=lp)
     ig = [n for n in body_walk(init.node) if isinstance(n, ast.Assign) and self_attr(n.targets[0], sn) == "_ignore_duplicate"]
     ctx.expect("R-FWD", init, "ignore_duplicate is the caller's flag", len(ig) == 1 and ast.unparse(ig[0].value) == "ignore_duplicate", "", "", node=init.node)
     cfg = ctx.cfg(init)
